@@ -11,6 +11,7 @@ for f in "${FILES[@]}"; do
   if ! git -C $R apply "$(realpath $f)"; then echo "SENS $ID $(basename $f): PATCH-FAILED"; continue; fi
   out=$(VERIF_SEED=${VERIF_SEED:-7} ./check.sh $ID ${TIER:-quick} 2>&1); rc=$?
   git -C $R checkout -- . ; git -C $R clean -fdq
+  git checkout -q -- evidence/$ID.json 2>/dev/null   # the run's evidence describes a mutated tree: restore the committed file
   v=$(echo "$out" | grep -c '^VIOLATION')
   if [ $rc -eq 1 ] && [ $v -ge 1 ]; then echo "SENS $ID $(basename $f): CAUGHT"; else echo "SENS $ID $(basename $f): MISSED rc=$rc"; echo "$out" | tail -15 | sed 's/^/    /'; fi
   [ -n "${SENS_VERBOSE:-}" ] && echo "$out" | tail -30
